@@ -2,7 +2,7 @@
 From Coq Require Import ZArith QArith Qcanon List Bool Arith.
 From QV.Exec Require Import Base.
 From QV.Core Require Import OF QcOF.
-From QV.Model Require Import Multinomial C14_DataGen C14_Streams.
+From QV.Model Require Import Multinomial C14_DataGen C14_Streams C14_ExpHist.
 Import ListNotations.
 Local Open Scope Z_scope.
 
@@ -152,6 +152,77 @@ Definition op_flow_nf : opfun := fun zs _ =>
   | [] => Err (-1)
   end.
 
+(* ---- Experiment objects over a history (Model/C14_ExpHist.v) on the free generator ---- *)
+Fixpoint pairs (l : list Z) : list (nat * nat) :=
+  match l with a :: b :: t => (nat_ a, nat_ b) :: pairs t | _ => [] end.
+Definition take_sched (l : list Z) : list (list (nat * nat)) * list Z :=
+  let (ll, r) := take_ll l in (map pairs ll, r).
+Definition dec_ecall (l : list Z) : option (ecall * list Z) :=
+  match l with
+  | code :: t =>
+    if code =? 0 then match t with sc :: n :: t' => Some (EData (nat_ sc) n, t') | _ => None end else
+    if code =? 1 then let (ns, t') := take t in Some (EDataset ns, t') else
+    if code =? 2 then match t with sc :: t1 => let (ns, t') := take t1 in Some (EEmpiSeq (nat_ sc) ns, t') | _ => None end else
+    if code =? 3 then let (lns, t') := take_ll t in Some (EEmpiSeqs lns, t') else None
+  | [] => None
+  end.
+Fixpoint dec_xhops (fuel : nat) (l : list Z) : list xhop :=
+  match fuel with
+  | O => []
+  | S f =>
+    match l with
+    | code :: t =>
+      if code =? 0 then match t with z :: t' => XBase (HSeedGlobal z) :: dec_xhops f t' | _ => [] end else
+      if code =? 1 then match t with n :: t' => XBase (HGlobalDraw n) :: dec_xhops f t' | _ => [] end else
+      if code =? 2 then match t with z :: t' => XBase (HNewGen z) :: dec_xhops f t' | _ => [] end else
+      if code =? 3 then match t with h :: n :: t' => XBase (HGenDraw (nat_ h) n) :: dec_xhops f t' | _ => [] end else
+      if code =? 10 then match t with
+                         | fl :: z :: t0 =>
+                             let (a, t1) := take t0 in let (b, t2) := take t1 in let (c, t3) := take t2 in let (d, t4) := take t3 in
+                             let (sch, t5) := take_sched t4 in
+                             XConstruct {| e_states := map nat_ a; e_povms := map nat_ b; e_gates := map nat_ c; e_mps := map nat_ d; e_sched := sch |} (opt fl z)
+                             :: dec_xhops f t5
+                         | _ => [] end else
+      if code =? 11 then match t with o :: t' => XCopy (nat_ o) :: dec_xhops f t' | _ => [] end else
+      if code =? 12 then match t with o :: k :: i :: e :: t' => XSetItem (nat_ o) (nat_ k) (nat_ i) (nat_ e) :: dec_xhops f t' | _ => [] end else
+      if code =? 13 then match t with o :: k :: t0 => let (l', t') := take t0 in XSetList (nat_ o) (nat_ k) (map nat_ l') :: dec_xhops f t' | _ => [] end else
+      if code =? 14 then match t with o :: t0 => let (sch, t') := take_sched t0 in XSetSched (nat_ o) sch :: dec_xhops f t' | _ => [] end else
+      if code =? 15 then match t with o :: fl :: z :: t' => XResetSeedData (nat_ o) (opt fl z) :: dec_xhops f t' | _ => [] end else
+      if code =? 16 then match t with o :: sc :: t' => XCalc (nat_ o) (nat_ sc) :: dec_xhops f t' | _ => [] end else
+      if code =? 17 then match t with
+                         | o :: a :: b :: t0 => match dec_ecall t0 with
+                                                | Some (e, t') => XCall (nat_ o) e (dec_sog a b) :: dec_xhops f t'
+                                                | None => [] end
+                         | _ => [] end else []
+    | [] => []
+    end
+  end.
+Definition enc_nats (l : list nat) : list Z := Z.of_nat (length l) :: map Z.of_nat l.
+Definition enc_pairs (l : list (nat * nat)) : list Z := Z.of_nat (length l) :: flat_map (fun p => [Z.of_nat (fst p); Z.of_nat (snd p)]) l.
+Definition enc_cont (c : econt) : list Z :=
+  enc_nats (e_states c) ++ enc_nats (e_povms c) ++ enc_nats (e_gates c) ++ enc_nats (e_mps c)
+  ++ Z.of_nat (length (e_sched c)) :: flat_map enc_pairs (e_sched c).
+Definition enc_table (t : list (option circ)) : list Z :=
+  Z.of_nat (length t) :: flat_map (fun x => match x with None => [0] | Some r => 1 :: enc_pairs r end) t.
+Definition enc_xres (r : @xres ftok) : list Z :=
+  match r with
+  | XUnit => [0]
+  | XErr c => [1; Z.of_nat c]
+  | XObj o => [2; Z.of_nat o]
+  | XOut c t r => 3 :: enc_cont c ++ enc_table t ++ enc_res r
+  end.
+(* zs = number of steps :: encoded steps; reply: number of steps, per step its result, the final random world, the contents of every object *)
+Definition op_xflow : opfun := fun zs _ =>
+  match zs with
+  | cnt :: body =>
+      let hs := dec_xhops (length body) body in
+      if negb (Z.of_nat (length hs) =? cnt) then Err (-2) else
+      let (rs, w) := xexec fdraw fmkgen fgseed hs {| base := fworld0; conts := fun _ => econt0 |} in
+      Ok (map qz (Z.of_nat (length rs) :: flat_map enc_xres rs ++ enc_world (base w)
+                  ++ flat_map (fun o => enc_cont (conts w o)) (seq O (nobj (base w)))))
+  | [] => Err (-1)
+  end.
+
 Definition C14_ops : optable :=
   [ ("c14.rn2data"%string, op_rn2data);
     ("c14.rn2data_r"%string, op_rn2data_r);
@@ -160,4 +231,5 @@ Definition C14_ops : optable :=
     ("c14.empi_seqs"%string, op_empi_seqs);
     ("c14.multi_to_empi"%string, op_multi_to_empi);
     ("c14.flow"%string, op_flow);
-    ("c14.flow_nf"%string, op_flow_nf) ].
+    ("c14.flow_nf"%string, op_flow_nf);
+    ("c14.xflow"%string, op_xflow) ].
